@@ -93,8 +93,10 @@ def muldiv(chk, F):
             continue
         v = st.ret
         vias = via(st, bad)
-        vtag = (";via:" + "+".join(vias)) if vias else ""
         rl = D.region_label(st, [("self.c", D.parts(args[0])[0])])
+        vtag = ""
+        if vias:
+            rl, vtag = "", "via:" + "+".join(vias)
         if D.parts(v) is None:
             chk.ob(rule, "<Duration as Div<i64>>::div", "result-shape", False, detail=repr(v))
             continue
